@@ -144,7 +144,7 @@ def _compute_degree_iterative(expr: Expression) -> Optional[int]:
             continue
         if isinstance(node, VectorPowerSum):
             # sum(x ** k) has degree k
-            result_stack.append(int(node.power))
+            result_stack.append(_power_degree(node.power))
             continue
         if isinstance(node, VectorUnarySum):
             # sum(sin(x)), sum(exp(x)) etc. are non-polynomial
@@ -152,7 +152,7 @@ def _compute_degree_iterative(expr: Expression) -> Optional[int]:
             continue
         if isinstance(node, ElementwisePower):
             # x ** k has degree k
-            result_stack.append(int(node.power))
+            result_stack.append(_power_degree(node.power))
             continue
         if isinstance(node, ElementwiseUnary):
             # sin(x), exp(x) etc. are non-polynomial
@@ -259,6 +259,14 @@ def _vector_elements_degree(vector: Any) -> Optional[int]:
     return max_deg
 
 
+def _power_degree(power: float) -> Optional[int]:
+    """Degree of an element-wise power: None unless a non-negative integer."""
+    power_float = float(power)
+    if not power_float.is_integer() or power_float < 0:
+        return None
+    return int(power_float)
+
+
 def _product_degree(left_deg: Optional[int], right_deg: Optional[int]) -> Optional[int]:
     """Degree bound of a sum of element products (never below quadratic).
 
@@ -333,13 +341,13 @@ def _compute_degree_impl(expr: Expression) -> Optional[int]:
         return _product_degree(elem_deg, elem_deg)
     if isinstance(expr, VectorPowerSum):
         # sum(x ** k) has degree k
-        return int(expr.power)
+        return _power_degree(expr.power)
     if isinstance(expr, VectorUnarySum):
         # sum(sin(x)), sum(exp(x)) etc. are non-polynomial
         return None
     if isinstance(expr, ElementwisePower):
         # x ** k has degree k
-        return int(expr.power)
+        return _power_degree(expr.power)
     if isinstance(expr, ElementwiseUnary):
         # sin(x), exp(x) etc. are non-polynomial
         return None
